@@ -309,6 +309,58 @@ def _def_bound(repo, fn, value, site, depth, name):
 _len_cache = {}
 
 
+def _built_per_element(fn, name, ret):
+    """Parameter P when the local list ``name`` returned at ``ret`` receives exactly one element per element of P:
+    bound once to an unfiltered comprehension over P, or bound once to an empty list and appended to at one site,
+    unconditionally, in a single un-nested ``for ... in P`` loop that is never left early; no other use of the list."""
+    from .forms import contributions, _enclosing_loops
+    binds = [n for n in body_nodes(fn.node) if isinstance(n, (ast.Assign, ast.AugAssign, ast.AnnAssign, ast.For, ast.With, ast.NamedExpr))
+             and any(isinstance(t, ast.Name) and t.id == name and isinstance(t.ctx, ast.Store) for t in ast.walk(n)
+                     if not isinstance(n, ast.For) or t in list(ast.walk(n.target)))]
+    binds = [n for n in binds if not isinstance(n, ast.For) or any(isinstance(t, ast.Name) and t.id == name for t in ast.walk(n.target))]
+    if len(binds) != 1 or not isinstance(binds[0], ast.Assign) or len(binds[0].targets) != 1 or not isinstance(binds[0].targets[0], ast.Name):
+        return None
+    if binds[0] not in fn.node.body:
+        return None
+    loads = [n for n in body_nodes(fn.node) if isinstance(n, ast.Name) and n.id == name and isinstance(n.ctx, ast.Load)]
+    v = binds[0].value
+    if isinstance(v, ast.ListComp):
+        if len(v.generators) == 1 and not v.generators[0].ifs and isinstance(v.generators[0].iter, ast.Name) \
+                and v.generators[0].iter.id in fn.all_params and all(fn.module.parent.get(n) is ret for n in loads):
+            return v.generators[0].iter.id
+        return None
+    empty = (isinstance(v, ast.List) and not v.elts) or (isinstance(v, ast.Call) and isinstance(v.func, ast.Name) and v.func.id == "list"
+                                                         and not v.args and not v.keywords)
+    if not empty:
+        return None
+    cs = contributions(fn, name)
+    if len(cs) != 1:
+        return None
+    c = cs[0]
+    call = c["node"]
+    if not (isinstance(call, ast.Call) and isinstance(call.func, ast.Attribute) and call.func.attr == "append" and len(call.args) == 1):
+        return None
+    loops = _enclosing_loops(fn, call)
+    if len(loops) != 1 or not isinstance(loops[0], ast.For) or loops[0].orelse or loops[0] not in fn.node.body:
+        return None
+    loop = loops[0]
+    if not (isinstance(loop.iter, ast.Name) and loop.iter.id in fn.all_params):
+        return None
+    # the append is a direct statement of the loop body (runs once per iteration) and nothing leaves the iteration early
+    if not any(isinstance(s_, ast.Expr) and s_.value is call for s_ in loop.body):
+        return None
+    if any(isinstance(n, (ast.Break, ast.Continue, ast.Return, ast.Raise, ast.Yield, ast.YieldFrom)) for n in ast.walk(loop)):
+        return None
+    if any(isinstance(n, ast.Name) and n.id == loop.iter.id and isinstance(n.ctx, ast.Store) for n in ast.walk(loop)):
+        return None
+    for n in loads:
+        par = fn.module.parent.get(n)
+        if par is ret or (isinstance(par, ast.Attribute) and par is call.func):
+            continue
+        return None
+    return loop.iter.id
+
+
 def returns_length_of(repo, fn):
     """Name of the parameter whose length every returned list has (each return
     is an unfiltered comprehension over that parameter), else None."""
@@ -322,6 +374,8 @@ def returns_length_of(repo, fn):
         if isinstance(v, (ast.ListComp, ast.GeneratorExp)) and len(v.generators) == 1 and not v.generators[0].ifs \
                 and isinstance(v.generators[0].iter, ast.Name) and v.generators[0].iter.id in fn.all_params:
             params.add(v.generators[0].iter.id)
+        elif isinstance(v, ast.Name) and v.id not in fn.all_params and _built_per_element(fn, v.id, r) is not None:
+            params.add(_built_per_element(fn, v.id, r))
         else:
             ok = False
     res = params.pop() if ok and len(params) == 1 else None
